@@ -1,8 +1,8 @@
 SPECIFICATION GSpec
 CONSTANTS
   Transport = "quic"
-  ResidueAfterFailure = TRUE
-  ShortCookieRead = TRUE
+  ResidueAfterFailure = FALSE
+  ShortCookieRead = FALSE
   DialResetsData = FALSE
   Alpns <- AlpnsQuic
   Alphabet <- AlphaAll
@@ -11,4 +11,5 @@ CONSTANTS
   MaxDials = 1
   MaxCalls = 1
   MaxStore = 0
+  Tails = FALSE
 INVARIANTS Emit RunAgrees
